@@ -3132,6 +3132,12 @@ func (db *DB) importToLTX(ctx context.Context, r io.Reader) (ltx.Pos, error) {
 		return ltx.Pos{}, fmt.Errorf("close ltx file: %s", err)
 	}
 
+	// Ensure node is still the primary before the final commit step: reading
+	// the image can take long enough for the role to be lost meanwhile.
+	if !db.store.IsPrimary() {
+		return ltx.Pos{}, ErrReadOnlyReplica
+	}
+
 	// Atomically rename the file
 	if err := db.os.Rename("IMPORTTOLTX", tmpPath, ltxPath); err != nil {
 		return ltx.Pos{}, fmt.Errorf("rename ltx file: %w", err)
